@@ -122,6 +122,12 @@ def injection_oracle(c):
         return None
     if c.desc.startswith('inject:'):
         base = list(_base_logs.get(c.desc[7:].split('|')[0], []))
+        if spot == '_yatiml_extra' and isinstance(c.tyspec, tuple):
+            # a document key spelt _yatiml_extra never gets past the attribute check: the host itself is not built
+            for x in base:
+                if x[0] == 'init' and x[1] == c.tyspec[1]:
+                    base.remove(x)
+                    break
         extra = []
         for x in calls:
             if x in base:
